@@ -206,6 +206,10 @@ type runHooks struct {
 	noDefaultNode    bool      // the scenario builds its own servers in beforeClient (cluster, sentinel)
 	newClient        func(e *env, i int) (Client, error) // replaces NewClient(e.clientOption())
 	execOverride     func(e *env, cl Client, cs CallSpec, ctx context.Context, rec *sched.CallRec) *CallResult
+	// hashMainPhase: the event-log hash of the run is taken when the workload phase ends. For clients whose Close is
+	// asynchronous (clusterClient.Close starts one goroutine per node and returns), the teardown is not driven to a
+	// defined end by the scheduler and is not judged by any oracle of those scenarios.
+	hashMainPhase bool
 }
 
 func (e *env) stdGhost(g GhostSpec) func(*sched.Sim) {
@@ -358,6 +362,9 @@ func standardRun(t *testing.T, seed uint64, p *Plan, out *Outcome, h runHooks) *
 			rec.Hung = true
 		}
 	}
+	if h.hashMainPhase {
+		e.mainHash = s.LogHash()
+	}
 	if h.afterMain != nil {
 		h.afterMain(e)
 	}
@@ -380,6 +387,12 @@ func (e *env) closeClients() {
 	if rr.Reason != "done" {
 		e.out.probe("close-did-not-finish:" + rr.Reason)
 	}
+	if os.Getenv("VERIF_DEBUG_CLOSE") != "" {
+		buf := make([]byte, 1<<20)
+		buf = buf[:runtime.Stack(buf, true)]
+		os.Stderr.WriteString(fmt.Sprintf("=== seed %d goroutines after Close returned ===\n", e.out.Seed))
+		os.Stderr.Write(buf)
+	}
 	// let the server notice and background goroutines exit
 	s.Cfg.MaxSteps = s.Step + 300
 	s.Run(func() bool {
@@ -399,6 +412,9 @@ func (e *env) finish() {
 	out.Steps = s.Step
 	out.FakeMs = s.Elapsed().Milliseconds()
 	out.LogHash = s.LogHash()
+	if e.mainHash != "" {
+		out.LogHash = e.mainHash
+	}
 	out.Stats = s.Stats
 	if *flagTape {
 		out.Tape = s.Tape
